@@ -50,6 +50,10 @@ def sshdSpec (prop : String) (pid line : Str) (ok : Bool) (h : Sshd.Handoff)
   | "C11" => Spec.specC11 sshdCfg pid line ok o
   | "C19" => Spec.specC19 line o
   | "C05" =>
+    -- lines reporting failures and unrecognised lines never forward a login: only a line that IS an
+    -- "Accepted …" message can (stated on the line itself, independently of the regenerated dispatch)
+    if !(Spec.sends o).isEmpty && !((strOf "Accepted publickey").isPrefixOf line || (strOf "Accepted password").isPrefixOf line)
+    then some "line-that-is-not-an-accepted-login-forwarded-a-login" else
     match Spec.specC05 pid ok h o with
     | some c => some c
     | none =>
